@@ -184,6 +184,41 @@ func c17(w *core.World, r *core.Report) {
 	}
 
 	// ---- SNAPSHOT
+	// ---- LAZY-LOAD-COMPLETE
+	r.Rule("LAZY-LOAD-COMPLETE", 4, "the lazily loaded key indexes answer the same to every validator: in each method of TreeCacheClientImpl that finds intendedStoreIndex / runningStoreIndex nil, every path from that outcome to the next read of the index (or to a return) runs TreeCacheClientImpl.RefreshCaches, which fills the index under its write lock. A shortcut for 'somebody else is refreshing already' (TryLock, a flag) lets a concurrent validator read a nil index as 'path does not exist' while the sequential run waits for the load.")
+	for _, f := range w.RepoFns {
+		if f.Signature == nil || f.Signature.Recv() == nil || core.TypeKey(f.Signature.Recv().Type()) != "tree.TreeCacheClientImpl" || core.IsInlined(f) {
+			continue
+		}
+		core.WithHost(f, func() {
+			for _, iff := range core.Ifs(f) {
+				x, nilOnTrue, ok := core.NilTest(iff.Cond)
+				if !ok {
+					continue
+				}
+				fk := core.FieldOf(x)
+				if fk != "tree.TreeCacheClientImpl.intendedStoreIndex" && fk != "tree.TreeCacheClientImpl.runningStoreIndex" {
+					continue
+				}
+				nilSucc := iff.Block().Succs[1]
+				if nilOnTrue {
+					nilSucc = iff.Block().Succs[0]
+				}
+				reach, _ := core.PathQuery{Root: f, Avoid: func(in ssa.Instruction) bool {
+					c, isCall := in.(ssa.CallInstruction)
+					return isCall && core.CalleeIs(c, "tree.TreeCacheClientImpl.RefreshCaches")
+				}}.Reaches(nilSucc, 0, func(in ssa.Instruction) bool {
+					if core.IsExit(in) {
+						return true
+					}
+					v, isVal := in.(ssa.Value)
+					return isVal && v != x && core.FieldOf(v) == fk
+				})
+				r.Check(!reach, "LAZY-LOAD-COMPLETE", core.Site(f, "index found nil is refreshed before it is read"), w.InstrPos(iff), "a path from the 'index is nil' outcome reaches the next read of the index (or a return) without RefreshCaches: under concurrency that validator answers from an index that is not loaded")
+			}
+		})
+	}
+
 	r.Rule("SNAPSHOT", 2, "childMap.GetAll and childMap.GetKeys hand out copies made under the read lock (the returned map / slice is allocated in the function), never the live map: traversals iterate a snapshot while lazy loads add children.")
 	for _, n := range []string{"GetAll", "GetKeys"} {
 		f := w.Func("pkg/tree", "childMap", n)
